@@ -302,6 +302,29 @@ theorem equalize_nearest (vs d : Rat) (hq : 0 ≤ d / vs) :
     ((equalizeCount vs d : Nat) : Rat) ≤ d / vs + 1 / 2 ∧ d / vs - 1 / 2 < ((equalizeCount vs d : Nat) : Rat) :=
   equalizeCount_nearest vs d hq
 
+/-! ### a re-used `Resize` object -/
+
+/-- (near-definitional for the committed code, which keeps nothing between calls — the content is the tie by call
+sequences.)  The output of a `Resize` object for an input does not depend on the inputs it was applied to before. -/
+theorem resize_history_indep (o : ResizeObj) (h : List (Nat × Nat × (Nat → Nat → Rat))) (n1 n2 : Nat) (f : Nat → Nat → Rat) :
+    ((ResizeObj.after false o h).call false n1 n2 f).2 = (o.call false n1 n2 f).2 := by
+  have inv : ∀ (h : List (Nat × Nat × (Nat → Nat → Rat))) (o : ResizeObj),
+      (ResizeObj.after false o h).m1 = o.m1 ∧ (ResizeObj.after false o h).m2 = o.m2 ∧
+        (ResizeObj.after false o h).conservative = o.conservative := by
+    intro h
+    induction h with
+    | nil => intro o; exact ⟨rfl, rfl, rfl⟩
+    | cons x xs ih => intro o; obtain ⟨a, b, c⟩ := x; exact ih _
+  obtain ⟨a, b, c⟩ := inv h o
+  simp only [ResizeObj.call, a, b, c, Bool.false_eq_true, if_false]
+
+/-- a ratio of voxel counts cached in the first call IS hidden state: 4×4 → 2×2 followed by 2×2 → 2×2 on one object
+multiplies the second (identity) resize by 4 -/
+theorem resize_cached_ratio_is_hidden_state :
+    ((ResizeObj.after true ⟨2, 2, true, none⟩ [(4, 4, fun _ _ => 1)]).call true 2 2 (fun _ _ => 1)).2 0 0 = 4 ∧
+    ((⟨2, 2, true, none⟩ : ResizeObj).call true 2 2 (fun _ _ => 1)).2 0 0 = 1 := by
+  decide +kernel
+
 /-! ### non-vacuity -/
 
 /-- a non-constant 3×5 array: conservative resize to 2×3 keeps the sum 3·5·… and changes the entries -/
